@@ -15,7 +15,9 @@ LEVEL_TEXT = (
     "Static decision of structural clauses of C16 on /repo's current source, by path-wise symbolic execution of the "
     "engine's CFGs over the inlined call graph of each class (calls on the object resolved in its MRO to any depth, "
     "decorators applied, property setters / deleters and private module helpers followed, conditions decided on "
-    "constants, flags and membership facts of the path, the callback followed through local aliases): (R16.1) every "
+    "constants, flags and membership facts of the path, identity / equality with a marker object - a private module-level "
+    "sentinel of the package, an object() made in the function, Ellipsis - decided by which binding reached the test, "
+    "the callback followed through local aliases): (R16.1) every "
     "dict mutator (typeshed table) of every CallbackDict-derived view resolves, in the class's MRO, to a method that "
     "performs a dict mutation and, on every path on which the dict changes, calls the callback with the dict "
     "afterwards; (R16.2) the same for every public HeaderSet method that changes the list / set, plus per-element "
@@ -62,6 +64,9 @@ ASSUMPTIONS = [
     "private helpers are reachable only through the public methods of their class (they are judged inlined into their callers)",
     "the views address headers by name: header operations are judged with a string key (R16.8)",
     "a dict-based view (cache control, CSP) with no items serialises to the empty string (R16.9 relies on dict truthiness for them)",
+    "a private module-level sentinel object of the package (`_missing = _Missing()`) gets into a value only by being named: identity with it "
+    "is decided by which binding reached the comparison - the result of a call that is not handed the sentinel and does not read an element "
+    "back out of a container / iterator / attribute is not the sentinel, and the value assigned to a cache-control directive never is",
 ]
 
 PAIRS = {  # reasoned inverse table for typed header properties: (load, dump)
@@ -854,6 +859,12 @@ def _views(ctx: Ctx) -> None:
         if not rows[True] or not rows[False]:
             names_ok = False
             why.append("the callback has no normally-completing path")
+        if not (names_ok and del_ok and (ser_ok and bool(kinds))):
+            # a verdict against the write-back stands only when its branches were understood: a condition over the view
+            # (other than its truthiness, which the two rows fix) that had to be followed both ways is not modelled
+            forks = sorted(k for k in ex2.unknown_forks if "__view__" in k and k != "__view__")
+            if forks:
+                raise AnalysisError(f"{name}: the write-back branches on conditions over the view that the rule does not model: {forks[:3]}")
         fact = f"getter reads {hdr!r}; non-empty view: {sorted({o.st.auto[0] for o in rows[True]})}; empty view: {sorted({o.st.auto[0] for o in rows[False]})}" + ("; " + "; ".join(why[:2]) if why else "")
         ctx.ob("R16.5", f"{name}: callback writes back the header that was read", names_ok, fact, fi, cbnode, f"{name} header names")
         if not mixed:
@@ -961,6 +972,18 @@ def _cache_value_table(ctx: Ctx, cc: ClassInfo) -> None:
             return (a + (kind,))[-4:]
         return a
 
+    probe = H.Exec(repo, cc)
+    fr0 = H.Frame(fi, fi.module, cc, fi.node, 0)
+
+    def oracle(key: str) -> bool | None:
+        # the assigned value ranges over None / True / False / int / str (the property's quantifier): it is never one
+        # of the package's private module-level sentinel objects
+        for op in (" is ", " == "):
+            a, sep, b = key.partition(op)
+            if sep and ((a == V and probe._sentinel_kind(b, fr0) is not None) or (b == V and probe._sentinel_kind(a, fr0) is not None)):
+                return False
+        return None
+
     bad = []
     rows = 0
     unknown: set[str] = set()
@@ -971,7 +994,7 @@ def _cache_value_table(ctx: Ctx, cc: ClassInfo) -> None:
         rows += 1
         facts = dict(v)
         facts[T] = not v[TYPED] if not v[BOOL] else True  # truthiness of the type argument: None is falsy, a type is truthy
-        ex = H.Exec(repo, cc, on_event=on_event)
+        ex = H.Exec(repo, cc, on_event=on_event, oracle=oracle)
         outs = [o for o in ex.run_function(fi, auto0=(), facts0=facts) if o.kind == "ret"]
         unknown |= {k for k in ex.unknown_forks if V in k or T in k}
         if v[BOOL]:
